@@ -95,7 +95,9 @@ pub fn check_type(i: usize) -> Vec<V> {
                     if !ok {
                         out.push(("virtual-sign-derivation", format!("{}:own-size-page-not-stored", name), format!("{}: a {}x{} page was sent, the virtual sign holds {} page(s) {:?}", name, pw, ph, stored, s.pages().iter().map(|p| (p.width(), p.height())).collect::<Vec<_>>())));
                     }
-                } else if stored != 0 {
+                } else if s.pages().iter().any(|p| (p.width(), p.height()) != (dw, dh) || p.as_bytes().len() as u64 != padded(dw as u64, dh as u64)) {
+                    // whether data of another size is dropped, or cut to the sign's own size, is not this property's
+                    // business; a page held with dimensions other than the type's means the derivation differs
                     out.push(("virtual-sign-derivation", format!("{}:other-size-page-stored", name), format!("{}: a page of the different size {}x{} ({} bytes) was stored as {:?}", name, pw, ph, page.as_bytes().len(), s.pages().iter().map(|p| (p.width(), p.height())).collect::<Vec<_>>())));
                 }
             }
